@@ -326,9 +326,12 @@ pub async fn handle_srt_packet(
             //
             // Only data packets have seq != None (control packets have MSB set).
             if seq.is_some()
+                && !config_snap.mode.is_classic()
                 && (critical_window.is_critical_now(packet_time_ms)
                     || srtla_protocol::is_srt_data_retransmit(pkt))
                 && let Some(best_idx) = srtla_core::priority::select_best_quality_idx(connections)
+                && !connections[best_idx].is_timed_out(packet_time_ms)
+                && !connections[best_idx].is_stall_gated()
                 && sel_idx != Some(best_idx)
             {
                 trace!(
